@@ -14,6 +14,7 @@ import (
 //   - the order in which findNode searches the three entry lists of a directory
 //     (`for _, x := range wd.<Field>`), and the order in which dir.ReadDir lists them
 //     (`for _, x := range p.pb.<Field>`).
+//
 // Anything else fails closed.
 func init() {
 	targets["CasFs"] = func() string {
